@@ -9,10 +9,10 @@ namespace Optyx.Props.PinsC15
 open Optyx.Generated.PinsC15
 
 /-- `gradient` (core/autodiff.py) -/
-theorem pin_autodiff_gradient_anchor : pin_autodiff_gradient = "334729e5c1cbe697" := rfl
+theorem pin_autodiff_gradient_anchor : pin_autodiff_gradient = "fee553c339472aff" := rfl
 
 /-- every function the model of C15 transcribes (and no translator covers) is the one it was read from -/
-theorem anchors : pin_autodiff_gradient = "334729e5c1cbe697" :=
+theorem anchors : pin_autodiff_gradient = "fee553c339472aff" :=
   pin_autodiff_gradient_anchor
 
 end Optyx.Props.PinsC15
